@@ -194,6 +194,55 @@ func (s *Session) Request(input []byte) (r Resp) {
 	return
 }
 
+// Attempt sends one input that the caller expects to be refused, then behaves like a client of the
+// given style: 0 = nothing more, 1 = Flush, 2 = Flush and Finish. FlushErr/FinishErr report what those
+// calls returned ("-" = not called).
+func (s *Session) Attempt(input []byte, style int) (r Resp) {
+	r.Input = string(input)
+	mark := s.Env.Mark()
+	s.Steps = 0
+	vm.VerifPoint = func() { s.Steps++ }
+	defer func() {
+		vm.VerifPoint = nil
+		r.Steps = s.Steps
+		r.Calls = s.Env.Since(mark)
+		if p := recover(); p != nil {
+			r.Panic = fmt.Sprint(p)
+		}
+	}()
+	ctx := context.Background()
+	var en *engine.DefaultEngine
+	var pe *persist.Persister
+	if s.Mode == LongLived {
+		if s.en == nil {
+			s.en, _ = s.newEngine()
+		}
+		en = s.en
+	} else {
+		en, pe = s.newEngine()
+		defer func() {
+			if pe != nil && pe.GetState() != nil {
+				s.St = pe.GetState()
+				s.Ca = pe.Memory
+			}
+		}()
+	}
+	cont, err := en.Exec(ctx, input)
+	r.Cont = cont
+	r.ExecErr = errStr(err)
+	r.FlushErr, r.FinishErr = "-", "-"
+	if style >= 1 {
+		var w bytes.Buffer
+		_, err = en.Flush(ctx, &w)
+		r.Out = w.String()
+		r.FlushErr = errStr(err)
+	}
+	if style >= 2 {
+		r.FinishErr = errStr(en.Finish(ctx))
+	}
+	return
+}
+
 // FlushOnly calls Flush on the long-lived engine without Exec (C17).
 func (s *Session) FlushOnly() (string, error) {
 	if s.en == nil {
